@@ -224,7 +224,7 @@ def execute(scn, keep_trace=False):
                 try:
                     out = c.compute_chunk(ch)
                 except Exception as e:
-                    if _twin_raises_too(e, lambda: twin.compute_chunk(source.deliver(x, a, ln, "copy"))):
+                    if _twin_raises_too(e, lambda: twin.compute_chunk(source.deliver(x, a, ln, _twin_mem(mem)))):
                         res.probe("both_raise")  # not history dependent: outside this property
                     else:
                         fail("RAISES", "utt %d compute_chunk #%d raised %s: %s (a fresh instance does not)" % (
@@ -232,7 +232,7 @@ def execute(scn, keep_trace=False):
                     ok = False
                     break
                 model_started = True
-                exp = twin.compute_chunk(source.deliver(x, a, ln, "copy"))
+                exp = twin.compute_chunk(source.deliver(x, a, ln, _twin_mem(mem)))
                 a += ln
                 tr.log("chunk", i, ln, out)
                 if not _same(out, exp):
@@ -331,6 +331,11 @@ def execute(scn, keep_trace=False):
     res.nontrivial = bool(later_frames or res.probes)
     res.trace = tr
     return res
+
+
+def _twin_mem(mem):
+    """The twin gets its own array with the same memory layout (summation order may depend on strides)."""
+    return "strided" if mem == "strided" else "copy"
 
 
 def _twin_raises_too(e, fn):
